@@ -73,6 +73,15 @@ Definition ok_with (r : result) (p : list node) (o : obs) : bool :=
   && side_ok (rordered r) (filter (fun s => negb (is_scan s p)) (rsides r)) (owriter o)
   && side_ok (rordered r) (filter (fun s => is_scan s p) (rsides r)) (oscan o).
 
+(* rows only (used where a retried task legitimately leaves an aborted callback stream) *)
+Definition ok_rows_with (r : result) (o : obs) : bool :=
+  let v := rvalue r in
+  errc_eqb (oerr o) EOk
+  && forallb (fun e => errc_eqb e EOk) (osherr o)
+  && errc_eqb (oscanerr o) EOk
+  && shards_ok (vordered v) (vshards v) (oshards o)
+  && scanned_ok (vordered v) (vshards v) (oscanned o).
+
 (* The model IS the reference semantics, so model/implementation mismatch and
    property violation coincide for C01. *)
 Definition ok (c : case) : bool := ok_with (ref (cprog c)) (cprog c) (cobs c).
